@@ -445,6 +445,16 @@ def run(ctx):
             else:
                 ctx.ok("C03-R7", "%s writes only %s, value independent of previous state" % (path, fields), b.loc())
 
+        # the engine is its two public parts and nothing else: a private field would be a value
+        # derived at construction that `engine.voices = ..` / `engine.condition = ..` cannot keep
+        # current (seed C03k: a cached low-pass order)
+        ea = p.adts.get("engine::Engine")
+        if ea is not None and ea.get("variants"):
+            hidden = [f["name"] for f in ea["variants"][0]["fields"] if f.get("vis") != "pub"]
+            if hidden:
+                ctx.fail("C03-R9", "engine::Engine", "hidden field " + ",".join(hidden), "Engine has non-public field(s) %s next to the public, assignable `voices` and `condition`: the waveform then depends on what the engine was constructed with, not only on its current voice set and condition" % hidden, cm.loc_of(ea.get("span") or {}))
+            else:
+                ctx.ok("C03-R9", "Engine consists of its public fields only (%s): nothing derived is cached beside them" % [f["name"] for f in ea["variants"][0]["fields"]], cm.loc_of(ea.get("span") or {}))
         # R9 (the rule C20-R2 decides, stated for C03's purpose)
         from .c20 import getters_verbatim
         getters_verbatim(ctx, p, "C03-R9")
